@@ -457,23 +457,28 @@ def i_LDR(i, fmap):
         if not i.postindex:
             address += offset
         data = __mem(address, i.datasize)
+        # the loaded value and the write-back address are read in the current
+        # state, before any register of this instruction is written:
         if i.signed:
-            fmap[Xt] = data.signextend(i.regsize)
+            val = fmap(data.signextend(i.regsize))
         else:
-            fmap[Xt] = data.zeroextend(i.regsize)
+            val = fmap(data.zeroextend(i.regsize))
         if i.wback:
             if i.postindex:
                 address += offset
-            fmap[Xn] = fmap(address)
+            wb = fmap(address)
+        fmap[Xt] = val
+        if i.wback:
+            fmap[Xn] = wb
     else:  # literal case:
         Xt, offset = i.operands
-        address = fmap[pc] + offset
-        fmap[pc] = fmap[pc] + i.length
-        data = __mem(address, i.size)
+        data = __mem(pc + offset, i.size)
         if i.signed:
-            fmap[Xt] = fmap(data.signextend(64))
+            val = fmap(data.signextend(64))
         else:
-            fmap[Xt] = fmap(data.zeroextend(64))
+            val = fmap(data.zeroextend(64))
+        fmap[pc] = fmap[pc] + i.length
+        fmap[Xt] = val
 
 
 i_LDRB = i_LDR
